@@ -662,6 +662,26 @@ func (fc *FnCtx) specCall(env *SpecEnv, e *SCall) Val {
 				t = "(s_base " + x.T + ")"
 			}
 			return Val{"(> " + t + " " + env.loopEntry.top + ")", boolT}
+		case "thisIteration":
+			// the storage x refers to was allocated during the current iteration of the innermost loop that encloses
+			// the statement the clause is attached to (sendpre): "made for this element, not shared between elements"
+			var best *iterMark
+			r := fc.root()
+			for i := range r.iterMarks {
+				m := &r.iterMarks[i]
+				if env.pos.IsValid() && m.pos <= env.pos && env.pos < m.end && (best == nil || (m.end-m.pos) <= (best.end-best.pos)) {
+					best = m
+				}
+			}
+			if best == nil {
+				sfail("thisIteration(x): the clause is not attached to a statement inside a loop")
+			}
+			x := args(0)
+			t := x.T
+			if _, ok := x.Ty.Underlying().(*types.Slice); ok {
+				t = "(s_base " + x.T + ")"
+			}
+			return Val{"(> " + t + " " + best.top + ")", boolT}
 		case "sametype":
 			a, b := args(0), args(1)
 			return Val{eq("(dyntype "+a.T+")", "(dyntype "+b.T+")"), boolT}
